@@ -277,3 +277,27 @@ RULES = [
     ('R02.5', 'SETEVENTS argument = names in self.events; table stored/deleted only under the first/last-listener guards and followed by SETEVENTS', r02_5),
     ('R02.6', 'events dispatched only via self.events[name] under membership guard, only from _handle_notify', r02_6),
 ]
+
+from ..selftest import M  # noqa: E402
+F = 'txtorcon/torcontrolprotocol.py'
+MUTANTS = [
+    M('event-falls-through', F, "            self._handle_notify(self.code, resp)\n            self.code = None\n            return\n", "            self._handle_notify(self.code, resp)\n", ['R02.1']),
+    M('event-fires-defer', F, "            self._handle_notify(self.code, resp)\n", "            self._handle_notify(self.code, resp)\n            if self.defer:\n                self.defer.callback(resp)\n", ['R02.1']),
+    M('event-code-not-reset', F, "            self._handle_notify(self.code, resp)\n            self.code = None\n", "            self._handle_notify(self.code, resp)\n", ['R02.1']),
+    M('linecb-unguarded', F, "        return self.code >= 200 and self.code < 300 and \\\n            self.command and self.command[2] is not None", "        return self.command and self.command[2] is not None", ['R02.2']),
+    M('linecb-guard-700', F, "        return self.code >= 200 and self.code < 300 and \\\n            self.command", "        return self.code >= 200 and self.code < 700 and \\\n            self.command", ['R02.2']),
+    M('live-list', F, "for cb in list(self.callbacks):", "for cb in self.callbacks:", ['R02.3']),
+    M('handler-reraises', F, "                log.err(Failure())\n", "                log.err(Failure())\n                raise\n", ['R02.4']),
+    M('narrow-except', F, "            except Exception as e:\n                log.err(Failure())", "            except ValueError as e:\n                log.err(Failure())", ['R02.4']),
+    M('setevents-valid', F, "            return self.queue_command('SETEVENTS %s' % ' '.join(self.events.keys()))", "            return self.queue_command('SETEVENTS %s' % ' '.join(self.valid_events.keys()))", ['R02.5']),
+    M('no-setevents-on-remove', F, "            del self.events[evt.name]\n            return self.queue_command('SETEVENTS %s' % ' '.join(self.events.keys()))", "            del self.events[evt.name]\n            return defer.succeed(None)", ['R02.5']),
+    M('listen-only-first', F, "            d = defer.succeed(None)\n        evt.listen(callback)\n", "            d = defer.succeed(None)\n            return d\n        evt.listen(callback)\n", ['R02.5']),
+    M('del-before-unlisten', F, "        evt.unlisten(cb)\n        if len(evt.callbacks) == 0:", "        if len(evt.callbacks) == 1:", ['R02.5']),
+    M('dispatch-unguarded', F, "        if name in self.events:\n            self.events[name].got_update", "        if name in self.valid_events:\n            self.valid_events[name].got_update", ['R02.6']),
+]
+TWINS = [
+    M('tuple-snapshot', F, "for cb in list(self.callbacks):", "for cb in tuple(self.callbacks):"),
+    M('slice-snapshot', F, "for cb in list(self.callbacks):", "for cb in self.callbacks[:]:"),
+    M('join-list', F, "            return self.queue_command('SETEVENTS %s' % ' '.join(self.events.keys()))", "            return self.queue_command('SETEVENTS %s' % ' '.join(list(self.events)))"),
+    M('chained-2xx', F, "        return self.code >= 200 and self.code < 300 and \\\n            self.command", "        return 200 <= self.code < 300 and \\\n            self.command"),
+]
